@@ -17,6 +17,10 @@ var Lexicon = []string{"a", "b1", "_x", "$left", "and", "or", "in", "by", "let",
 	"/*/", "/**/", "/* x */", "*/", "/*", "#x\n", "\u2018", "\u2019", "\u201c", "\u201d", "'a\u2019b'", "\"a\u201db\"", "'\u2018'", "```", "```a```", "```a`", "@'a'", "@\"b", "@",
 	// integers around 2^64 whose last digit matters
 	"18446744073709551614", "18446744073709551617", "18446744073709551618", "18446744073709551619", "18446744073709551625", "184467440737095516150", "9223372036854775809",
+	// words that are keywords after a pipe only, or might be keywords one day; escapes
+	// that stop short; a digit followed by an underscore
+	"project", "away", "keep", "where", "take", "datetime", "not", "set", "distinct", "case", "has", "contains", "between",
+	"'\\u'", "'\\x'", "'\\u12'", "\"\\x4\"", "'\\u", "'\\x", "_", "1_", "1_000", "5m", "2024-01-15",
 	// numbers that stop inside their exponent, signs glued together
 	"1e+", "2.5E-", "--", "- -", "+-", "1--1", "a--b"}
 
